@@ -576,7 +576,8 @@ pub fn run_hs(cfg: &HsCfg, sc: &mut Sc) -> HsTrace {
                                 if o.is_ok() {
                                     sc.viol("C12", format!("{name}: set_psk with a {bad_len}-byte key accepted"));
                                 }
-                                let o = sc.ex.set_psk(w, 10 + r.below(250), &keys.psk[*n as usize]);
+                                let bad_pos = [10usize, 10, 11, 255, 256, 10 + r.below(250), usize::MAX][r.below(7)];
+                                let o = sc.ex.set_psk(w, bad_pos, &keys.psk[*n as usize]);
                                 sc.check_panic(&o, "set_psk out of range");
                                 let o = sc.ex.hs_write(w, &payload, exact + 16);
                                 sc.check_panic(&o, "hs_write missing psk (after a rejected set_psk)");
